@@ -490,8 +490,8 @@ class BaseCollection(BaseDisplayRepr):
         """
         # pylint: disable=protected-access
 
-        if arg is None:
-            arg = {}
+        # never write the keyword arguments into the caller's own dictionary
+        arg = {} if arg is None else arg.copy()
         if kwargs:
             arg.update(kwargs)
         style_kwargs = arg
